@@ -189,11 +189,14 @@ def run(pid, leg, seed, tier, out, ctx):
                    "-max_total_time=%d" % leg.get("time_cap", 60), "-print_final_stats=1", "-reduce_inputs=1"] + list(leg.get("args", ()))
             if not seeds:
                 cmd.append("-len_control=0")
-            p = subprocess.Popen(cmd, stdout=subprocess.DEVNULL, stderr=subprocess.PIPE, text=True, errors="replace", env=_env(stats))
-            procs.append((i, p, stats, prefix, time.time()))
-        for i, p, stats, prefix, ts in procs:
-            _, se = p.communicate()
+            # libFuzzer's log goes to a file, not a pipe: nobody drains 16 pipes at once, and a full pipe would stall the fuzzer
+            errf = open(os.path.join(tmp, "log%d.txt" % i), "w+", errors="replace")
+            p = subprocess.Popen(cmd, stdout=subprocess.DEVNULL, stderr=errf, env=_env(stats))
+            procs.append((i, p, stats, prefix, time.time(), errf))
+        for i, p, stats, prefix, ts, errf in procs:
+            p.wait()
             wall = time.time() - ts
+            errf.seek(0, 2); errf.seek(max(0, errf.tell() - 20000)); se = errf.read(); errf.close()
             try:
                 d = json.load(open(stats))
             except Exception:
@@ -241,9 +244,9 @@ def run(pid, leg, seed, tier, out, ctx):
                 drv.setdefault("inconclusive_kinds", {})["fuzzer-exit-%s" % p.returncode] = 1
             out["drivers"].append(drv)
     finally:
-        for _, p, _, _, _ in procs:
-            if p.poll() is None:
-                p.kill()
+        for pr in procs:
+            if pr[1].poll() is None:
+                pr[1].kill()
         shutil.rmtree(tmp, ignore_errors=True)
 
 
